@@ -22,7 +22,8 @@ pub const EMOJI: &[&str] = &["😀", "✓", "→", "…", "⋮", "│", "🎉"];
 /// flag sequences, conjuncts): their cluster width differs from the sum of their parts
 pub const COMPOSITE: &[&str] = &["👍🏽", "👨\u{200d}👩\u{200d}👧", "🇩🇪", "❤\u{fe0f}", "क्षि"];
 pub const RTL: &[&str] = &["שלום", "مرحبا", "א"];
-pub const OTHER_UNI: &[&str] = &["é", "ß", "λ", "Ж", "ø", "ñ", "ü", "\u{a0}", "\u{200b}", "ﬁ", "™"];
+// (the last four change their UTF-8 length under case mapping: Ω→ω, K→k, İ→i̇, ẞ→ß)
+pub const OTHER_UNI: &[&str] = &["é", "ß", "λ", "Ж", "ø", "ñ", "ü", "\u{a0}", "\u{200b}", "ﬁ", "™", "\u{2126}", "\u{212a}", "\u{130}", "\u{1e9e}"];
 pub const MARKERLIKE: &[&str] = &[
     "- x", "-- x", "-- a/foo.rs", "-", "--", "---", "+", "++", "+++", "++ b/foo.rs", "+ y",
     "@@ a @@", "@@ -1,2 +1,2 @@", "@@", "\\", "\\ No newline at end of file", "diff x", "diff --git a/q b/q",
